@@ -59,8 +59,16 @@ class Const(V):
 class Ext(V):
     """An external (stdlib / third party / builtin) object known by dotted name."""
 
+    # module-level data (not callables) whose kind is fixed by the standard library
+    DATA_KINDS = {"os.linesep": "str", "os.sep": "str", "os.pathsep": "str", "os.curdir": "str", "sys.maxunicode": "int",
+                  "sys.maxsize": "int", "string.ascii_letters": "str", "string.digits": "str", "string.punctuation": "str",
+                  "string.ascii_lowercase": "str", "string.ascii_uppercase": "str", "string.printable": "str",
+                  "string.whitespace": "str", "math.inf": "float", "math.pi": "float", "math.e": "float"}
+
     def __init__(self, name: str) -> None:
         self.name = name
+        if name in self.DATA_KINDS:
+            self.kind = self.DATA_KINDS[name]
 
     def key(self) -> str:
         return f"<{self.name}>"
